@@ -412,7 +412,9 @@ impl VariablesState {
                     json_read::jtoken_to_runtime_object(loaded_token, None)?
                         .into_any()
                         .downcast::<Value>()
-                        .unwrap(),
+                        .map_err(|_| {
+                            StoryError::BadJson(format!("Variable '{k}' is not a value"))
+                        })?,
                 );
             } else {
                 self.global_variables.insert(k.clone(), v.clone());
